@@ -218,7 +218,8 @@ def add_constants_shape(repo, res):
         if isinstance(n, ast.Assign) and isinstance(n.targets[0], ast.Subscript) and norm(n.targets[0].value) == ns:
             stores.setdefault(norm(n.targets[0].slice), []).append(n.value)
     plain = stores.get(nm, [])
-    okp = len(plain) == 2 and {norm(x) for x in plain} == {quan, f"{quan}.in_base(unit_system={reg}.unit_system)"}
+    # in_base(unit_system=None, ...): the system may be passed by keyword or as the first positional argument
+    okp = len(plain) == 2 and {norm(x).replace(f".in_base({reg}.unit_system)", f".in_base(unit_system={reg}.unit_system)") for x in plain} == {quan, f"{quan}.in_base(unit_system={reg}.unit_system)"}
     res.check(okp, "store:plain", fn.where(inner), "namespace[name] is the quantity in the registry's own unit system, or the quantity itself when not reducible", found=[norm(x) for x in plain], rid=r5)
     mks = stores.get(f"{nm} + '_mks'", [])
     res.check(len(mks) == 1 and (mks[0] in qcalls or norm(mks[0]) == quan), "store:_mks", fn.where(inner), "namespace[name_mks] is the quantity as tabulated (SI)", found=[norm(x) for x in mks], rid=r5)
